@@ -2,7 +2,8 @@
    model (Model/Mem.v, [model_agrees]) and versus the reference registry
    (Model/MemSpec.v, [obs_ok]). *)
 From Coq Require Import String.
-From OCI Require Export Obs.MemObs Model.MemSpec.
+From OCI Require Export Obs.MemObs Model.MemSpec Model.MemRel.
+From OCI Require Import Proofs.MemInv Proofs.MemRefine Proofs.MemHistory.
 
 Record case := { c_imm : bool; c_orc : oracles; c_ops : list op; c_obs : list oresult }.
 
@@ -43,12 +44,18 @@ Definition ok_vs_spec (l : list event) (o : op) (obs : oresult) (sp : result) : 
          end
   end.
 
+(* The reference registry gives no prediction from the point where its own reachability
+   search runs out of fuel (stored manifests forming a digest cycle, i.e. a hash collision):
+   the rest of such a history is not judged. *)
 Fixpoint spec_ok (o : oracles) (imm : bool) (st : sstate) (ops : list op) (obs : list oresult) : bool :=
   match ops, obs with
   | [], [] => true
   | op :: ops', ob :: obs' =>
       let '(st', r) := spec_step o imm st op in
-      ok_vs_spec (slog st) op ob r && spec_ok o imm st' ops' obs'
+      match r with
+      | OutOfFuel => true
+      | _ => ok_vs_spec (slog st) op ob r && spec_ok o imm st' ops' obs'
+      end
   | _, _ => false
   end.
 
@@ -58,11 +65,186 @@ Fixpoint spec_first_bad (i : N) (o : oracles) (imm : bool) (st : sstate) (ops : 
   match ops, obs with
   | op :: ops', ob :: obs' =>
       let '(st', r) := spec_step o imm st op in
-      if ok_vs_spec (slog st) op ob r then spec_first_bad (N.succ i) o imm st' ops' obs' else Some (i, r)
+      match r with
+      | OutOfFuel => None
+      | _ => if ok_vs_spec (slog st) op ob r then spec_first_bad (N.succ i) o imm st' ops' obs' else Some (i, r)
+      end
   | _, _ => None
   end.
 
-Definition nontrivial (c : case) : bool := true.
+(* A history is non-trivial when some read, resolve or listing follows a successful delete,
+   a re-tag (a successful tagged push onto an existing tag), a successful mount or a
+   rejected push: the situations the existing tests do not reach. *)
+Definition is_read (o : op) : bool :=
+  match o with
+  | GetBlob _ _ | GetBlobRange _ _ _ _ | GetManifest _ _ | GetTag _ _ | ResolveBlob _ _
+  | ResolveManifest _ _ | ResolveTag _ _ | Repositories _ | Tags _ _ | Referrers _ _ _ => true
+  | _ => false
+  end.
+Definition obs_ok_result (ob : oresult) : bool := match ob with OOk _ => true | _ => false end.
+Definition is_change (o : op) (ob : oresult) : bool :=
+  match o with
+  | DeleteBlob _ _ | DeleteManifest _ _ | DeleteTag _ _ | MountBlob _ _ _ => obs_ok_result ob
+  | PushBlob _ _ _ | WCommit _ _ => negb (obs_ok_result ob)
+  | PushManifest _ t _ _ => negb (obs_ok_result ob) || negb (beqb t [])
+  | _ => false
+  end.
+Fixpoint read_after_change (seen : bool) (ops : list op) (obs : list oresult) : bool :=
+  match ops, obs with
+  | o :: ops', ob :: obs' =>
+      (seen && is_read o) || read_after_change (seen || is_change o ob) ops' obs'
+  | _, _ => false
+  end.
+Definition nontrivial (c : case) : bool := read_after_change false (c_ops c) (c_obs c).
+
+(* ---- soundness of the correspondence: what agrees with the implementation model is
+   accepted by the reference registry (from the refinement theorem) ---- *)
+Lemma res_eqb_eq a b : res_eqb a b = true -> a = b.
+Proof.
+  destruct a, b; cbn; try discriminate; intros H.
+  - apply desc_eqb_eq in H. now subst.
+  - apply andb_true_iff in H as [H1 H2]. apply desc_eqb_eq in H1. apply beqb_eq in H2. now subst.
+  - apply N.eqb_eq in H. now subst.
+  - apply Z.eqb_eq in H. now subst.
+  - apply beqb_eq in H. now subst.
+  - reflexivity.
+Qed.
+
+Lemma res_eqb_same a b : res_eqb a a = true -> res_same a b = res_eqb a b.
+Proof. destruct a, b; cbn; try reflexivity; discriminate. Qed.
+
+Lemma opt_code_match (e : option ecode) (e' e'' : option err) :
+  option_eqb ecode_eqb e (opt_code e') = true -> opt_code_eqb e' e'' = true ->
+  option_eqb ecode_eqb e (opt_code e'') = true.
+Proof.
+  unfold opt_code_eqb, opt_code. destruct e, e', e''; cbn; try discriminate; auto.
+  intros H1 H2. apply ecode_eqb_eq in H1, H2. apply ecode_eqb_eq. congruence.
+Qed.
+
+Lemma agrees_match ob r q : agrees ob r = true -> result_match r q = true -> agrees_spec ob q = true.
+Proof.
+  destruct ob as [x|l e|l e|c|]; destruct r as [x'|e'| |]; cbn [agrees]; try discriminate.
+  - intros H. pose proof H as H0. apply res_eqb_eq in H. subst x'.
+    destruct q as [y| | |]; cbn [result_match]; try discriminate. intros Hq.
+    unfold agrees_spec. cbn [agrees]. now rewrite <- (res_eqb_same x y H0).
+  - destruct x' as [ | |l' e'| | | | |]; try discriminate. intros H. apply andb_true_iff in H as [H1 H2].
+    destruct q as [[ | |l'' e''| | | | |]| | |]; cbn [result_match res_same]; try discriminate.
+    intros Hq. apply andb_true_iff in Hq as [Q1 Q2].
+    apply (list_eqb_eq beqb beqb_eq) in H1, Q1. subst.
+    unfold agrees_spec. cbn [agrees]. apply andb_true_iff. split.
+    + now apply (list_eqb_eq beqb beqb_eq).
+    + eapply opt_code_match; eauto.
+  - destruct x' as [ | | |l' e'| | | |]; try discriminate. intros H. apply andb_true_iff in H as [H1 H2].
+    destruct q as [[ | | |l'' e''| | | |]| | |]; cbn [result_match res_same]; try discriminate.
+    intros Hq. apply andb_true_iff in Hq as [Q1 Q2].
+    apply (list_eqb_eq desc_eqb desc_eqb_eq) in H1, Q1. subst.
+    unfold agrees_spec. cbn [agrees]. apply andb_true_iff. split.
+    + now apply (list_eqb_eq desc_eqb desc_eqb_eq).
+    + eapply opt_code_match; eauto.
+  - intros H. apply ecode_eqb_eq in H. subst c.
+    destruct q as [|e''| |]; cbn [result_match]; try discriminate. unfold code_ok, agrees_spec. cbn [agrees].
+    destruct (e_code e''); auto.
+  - intros _. destruct q; cbn [result_match]; try discriminate. reflexivity.
+Qed.
+
+Lemma agrees_empty_answer o ob r : agrees ob r = true -> empty_answer o (to_result ob) = empty_answer o r.
+Proof.
+  destruct ob as [x|l e|l e|c|]; destruct r as [x'|e'| |]; cbn [agrees]; try discriminate.
+  - intros H. apply res_eqb_eq in H. now subst.
+  - destruct x' as [ | |l' e'| | | | |]; try discriminate. intros H. apply andb_true_iff in H as [H1 H2].
+    apply (list_eqb_eq beqb beqb_eq) in H1. subst l'. cbn [to_result].
+    destruct o; try reflexivity. cbn [empty_answer]. destruct l; [|reflexivity].
+    unfold opt_code in H2. destruct e, e'; cbn in *; try discriminate; try reflexivity.
+    apply ecode_eqb_eq in H2. now subst.
+  - destruct x' as [ | | |l' e'| | | |]; try discriminate. intros H. apply andb_true_iff in H as [H1 H2].
+    apply (list_eqb_eq desc_eqb desc_eqb_eq) in H1. subst l'. cbn [to_result].
+    destruct o; try reflexivity. cbn [empty_answer]. destruct l; [|reflexivity].
+    unfold opt_code in H2. destruct e, e'; cbn in *; try discriminate; try reflexivity.
+    apply ecode_eqb_eq in H2. now subst.
+  - intros H. apply ecode_eqb_eq in H. subst c. cbn [to_result]. destruct o; reflexivity.
+  - intros _. destruct o; reflexivity.
+Qed.
+
+Lemma ok_default l o ob r q :
+  agrees ob r = true -> result_match r q || slack l o r = true ->
+  agrees_spec ob q
+  || match op_repo o with
+     | Some rn => negb (has_content l rn) && empty_answer o (to_result ob)
+     | None => false
+     end = true.
+Proof.
+  intros Ha H. apply orb_true_iff in H as [H|H]; apply orb_true_iff.
+  - left. eapply agrees_match; eauto.
+  - right. unfold slack in H. now rewrite (agrees_empty_answer o ob r Ha).
+Qed.
+
+Lemma ok_vs_spec_sound l o ob r q :
+  agrees ob r = true -> res_ok l o r q = true -> ok_vs_spec l o ob q = true.
+Proof.
+  intros Ha H.
+  destruct o; try exact (ok_default l _ ob r q Ha H).
+  (* Repositories *)
+  pose proof Ha as Ha0.
+  destruct ob as [x|lo e|lo e|c|]; destruct r as [x'|e'| |]; cbn [agrees] in Ha; try discriminate.
+  - destruct x'; try (destruct x; discriminate);
+      exact (ok_default l _ (OOk x) (Ok _) q Ha0 H).
+  - destruct x' as [ | |l' e'| | | | |]; try discriminate.
+    apply andb_true_iff in Ha as [H1 H2].
+    apply (list_eqb_eq beqb beqb_eq) in H1. subst l'.
+    destruct e' as [e'|]; destruct e as [e|]; try discriminate.
+    + exact (ok_default l _ (OList lo (Some e)) (Ok (RList lo (Some e'))) q Ha0 H).
+    + destruct q as [[ | |ls [e''|]| | | | |]| | |];
+        try exact (ok_default l _ (OList lo None) (Ok (RList lo None)) _ Ha0 H).
+      exact H.
+  - destruct x'; try discriminate.
+    exact (ok_default l _ (ODescs lo e) (Ok (RDescs _ _)) q Ha0 H).
+  - exact (ok_default l _ (OErr c) (Err e') q Ha0 H).
+  - exact (ok_default l _ OPanic Panic q Ha0 H).
+Qed.
+
+Section Sound.
+  Variable orc : oracles.
+  Variable imm : bool.
+  Local Notation mstep := (mem_step orc imm).
+  Local Notation sstep' := (spec_step orc imm).
+  Local Notation Inv' := (Inv (orc_hash orc) (orc_img orc) (orc_idx orc)).
+
+  Lemma run_cons_snd {St} (step : registry St) s o h :
+    snd (run step s (o :: h)) = snd (step s o) :: snd (run step (fst (step s o)) h).
+  Proof. cbn. destruct (step s o) as [s1 r]. cbn. destruct (run step s1 h). reflexivity. Qed.
+
+  Lemma agrees_definite ob r : agrees ob r = true -> r <> OutOfFuel.
+  Proof. intros H ->. destruct ob; discriminate. Qed.
+
+  Lemma spec_ok_sound ops : forall obs st sp,
+    Rel st sp -> Inv' st ->
+    agrees_all obs (snd (run mstep st ops)) = true -> spec_ok orc imm sp ops obs = true.
+  Proof.
+    induction ops as [|o ops IH]; intros obs st sp HR HI Ha.
+    - destruct obs; [reflexivity | discriminate].
+    - rewrite run_cons_snd in Ha. destruct obs as [|ob obs]; [discriminate|].
+      cbn [agrees_all] in Ha. apply andb_true_iff in Ha as [Ha1 Ha2].
+      cbn [spec_ok]. destruct (sstep' sp o) as [sp' q] eqn:ES.
+      destruct (result_eq_fuel_dec q) as [->|Dq]; [reflexivity|].
+      pose proof (agrees_definite _ _ Ha1) as Dr.
+      destruct (sim_step (orc_hash orc) (orc_vd orc) (orc_vr orc) (orc_vt orc) (orc_img orc) (orc_idx orc)
+                {| immutable_tags := imm |} st sp o HR HI) as [HR' Hres].
+      { intros _. unfold spec_step in ES. rewrite ES. split; assumption. }
+      unfold spec_step in ES. rewrite ES in HR', Hres. cbn [fst snd] in HR', Hres.
+      assert (Hok : ok_vs_spec (slog sp) o ob q && spec_ok orc imm sp' ops obs = true).
+      { apply andb_true_iff. split.
+        - eapply ok_vs_spec_sound; eauto.
+        - eapply IH; [exact HR' | apply inv_step; exact HI | exact Ha2]. }
+      destruct q; try exact Hok. now elim Dq.
+  Qed.
+End Sound.
+
+Lemma corr_sound c : model_agrees c = true -> obs_ok c = true.
+Proof.
+  unfold model_agrees, obs_ok, model_results. intros H.
+  eapply spec_ok_sound; [apply rel_init | apply inv_init | exact H].
+Qed.
+
 Definition mismatches (cs : list case) : list (N * bool) :=
   bad_from 0 (fun c => if model_agrees c then None else Some (obs_ok c)) cs.
 Definition bad_obs (cs : list case) : list (N * bool) :=
